@@ -16,6 +16,8 @@ use std::sync::{Arc, Mutex};
 pub enum Site {
     Log,
     InstrLoc,
+    /// a control-flow edge inside the instrumented parallel build
+    Edge,
 }
 
 #[derive(Clone, Copy, Debug, PartialEq, Eq)]
@@ -31,6 +33,8 @@ pub struct RunStats {
     pub sched_points_emit: u64,
     pub sched_points_other: u64,
     pub sched_points_instr_loc: u64,
+    pub sched_points_edge: u64,
+    pub edges_seen: u64,
     pub log_records: u64,
     pub decisions: u64,
     pub context_switches: u64,
@@ -45,6 +49,9 @@ thread_local! {
     static ACTIVE: Cell<bool> = const { Cell::new(false) };
     static THIN: Cell<u32> = const { Cell::new(0) };
     static COUNTER: Cell<u32> = const { Cell::new(0) };
+    static EDGE_THIN: Cell<u32> = const { Cell::new(0) };
+    static EDGE_COUNTER: Cell<u64> = const { Cell::new(0) };
+    static EDGE_SWITCHES: Cell<u64> = const { Cell::new(0) };
     static PHASE: Cell<Phase> = const { Cell::new(Phase::Other) };
     static STATS: RefCell<RunStats> = RefCell::new(RunStats::default());
     static ENTROPY: Cell<Option<u64>> = const { Cell::new(None) };
@@ -76,13 +83,14 @@ pub fn sched_point(site: Site) {
         return;
     }
     #[cfg(not(feature = "native"))]
-    if shuttle::current::get_current_task().is_none() {
+    if !may_switch() {
         return;
     }
     STATS.with(|s| {
         let mut s = s.borrow_mut();
         match site {
             Site::InstrLoc => s.sched_points_instr_loc += 1,
+            Site::Edge => s.sched_points_edge += 1,
             Site::Log => match PHASE.with(|p| p.get()) {
                 Phase::Parse => s.sched_points_parse += 1,
                 Phase::Emit => s.sched_points_emit += 1,
@@ -97,6 +105,63 @@ pub fn sched_point(site: Site) {
     // real pool (native / Miri leg): an OS-level yield; Miri's scheduler may also preempt anywhere
     #[cfg(feature = "native")]
     std::thread::yield_now();
+}
+
+/// Is the caller a shuttle task whose engine state is free (so that a context switch is legal here)?
+/// Instrumented drop glue also runs from inside the engine's own bookkeeping and during unwinding:
+/// no scheduling point there.
+#[cfg(not(feature = "native"))]
+#[inline]
+fn may_switch() -> bool {
+    if std::thread::panicking() {
+        return false;
+    }
+    matches!(shuttle_engine::runtime::execution::ExecutionState::try_with(|s| s.try_current().map(|t| t.id())), Ok(Some(_)))
+}
+
+/// Called at every control-flow edge of the instrumented parallel build.
+#[inline]
+pub fn edge_point() {
+    if !ACTIVE.with(|a| a.get()) {
+        return;
+    }
+    let k = EDGE_THIN.with(|t| t.get());
+    if k == 0 {
+        return;
+    }
+    let n = EDGE_COUNTER.with(|c| {
+        let n = c.get().wrapping_add(1);
+        c.set(n);
+        n
+    });
+    if n % k as u64 != 0 {
+        return;
+    }
+    #[cfg(not(feature = "native"))]
+    {
+        if !may_switch() {
+            return;
+        }
+        let used = EDGE_SWITCHES.with(|c| {
+            let v = c.get() + 1;
+            c.set(v);
+            v
+        });
+        if used > EDGE_SWITCH_BUDGET {
+            return;
+        }
+        STATS.with(|s| s.borrow_mut().sched_points_edge += 1);
+        shuttle::thread::sleep(std::time::Duration::ZERO);
+    }
+}
+
+/// SanitizerCoverage hooks (see sim/rustc-wrap.sh): only crate walrus_par is instrumented.
+#[no_mangle]
+pub extern "C" fn __sanitizer_cov_trace_pc_guard_init(_start: *mut u32, _stop: *mut u32) {}
+
+#[no_mangle]
+pub extern "C" fn __sanitizer_cov_trace_pc_guard(_guard: *mut u32) {
+    edge_point();
 }
 
 // ---------------------------------------------------------------------------
@@ -259,6 +324,18 @@ mod sched {
                 Mode::Draw { rng, strategy, prio, change_points, low } => match strategy {
                     Strategy::Random => ids[rng.usize_below(ids.len())],
                     Strategy::Lowest => *ids.iter().min().unwrap(),
+                    Strategy::Bursty { q } => {
+                        if cur_runnable && !is_yielding && rng.below((*q).max(1) as u64) != 0 {
+                            cur.unwrap()
+                        } else {
+                            let others: Vec<usize> = ids.iter().copied().filter(|i| Some(*i) != cur).collect();
+                            if others.is_empty() {
+                                ids[0]
+                            } else {
+                                others[rng.usize_below(others.len())]
+                            }
+                        }
+                    }
                     Strategy::Sticky { keep } => {
                         if cur_runnable && !is_yielding && rng.below(256) < *keep as u64 {
                             cur.unwrap()
@@ -372,6 +449,9 @@ pub struct PoolStats {
 }
 
 pub const RUN_STACK: usize = 64 << 20;
+pub const STUCK_AFTER_SECS: u64 = 150;
+/// at most this many edge scheduling points per run (deterministic bound on the cost of a run)
+pub const EDGE_SWITCH_BUDGET: u64 = 1_500_000;
 
 fn panic_text(p: Box<dyn std::any::Any + Send>) -> String {
     if let Some(s) = p.downcast_ref::<&str>() {
@@ -412,6 +492,7 @@ mod simexec {
         let shared2 = shared.clone();
         let slot: Arc<Mutex<Option<T>>> = Arc::new(Mutex::new(None));
         let slot2 = slot.clone();
+        let (done_tx, done_rx) = std::sync::mpsc::channel::<()>();
         let h = std::thread::Builder::new()
             .stack_size(RUN_STACK)
             .spawn(move || {
@@ -426,6 +507,9 @@ mod simexec {
                 rayon_core::sim::begin(rayon_core::sim::Knobs { threads: knobs.threads as usize, steal_p: knobs.steal_p });
                 ACTIVE.with(|a| a.set(true));
                 THIN.with(|t| t.set(knobs.log_thin));
+                EDGE_THIN.with(|t| t.set(knobs.edge_thin));
+                EDGE_COUNTER.with(|c| c.set(0));
+                EDGE_SWITCHES.with(|c| c.set(0));
                 COUNTER.with(|c| c.set(0));
                 STATS.with(|s| *s.borrow_mut() = RunStats::default());
                 log::set_max_level(log::LevelFilter::Trace);
@@ -439,10 +523,28 @@ mod simexec {
                 log::set_max_level(log::LevelFilter::Off);
                 ACTIVE.with(|a| a.set(false));
                 let pool = rayon_core::sim::end();
-                let stats = STATS.with(|s| s.borrow().clone());
+                let mut stats = STATS.with(|s| s.borrow().clone());
+                stats.edges_seen = EDGE_COUNTER.with(|c| c.get());
+                EDGE_THIN.with(|t| t.set(0));
+                let _ = done_tx.send(());
                 (r.err().map(panic_text), stats, pool)
             })
             .expect("spawn sim thread");
+        // A task preempted while it holds a std lock (code under test that brings its own Mutex) blocks the
+        // whole single-threaded simulation for ever.  That is an artefact of cooperative scheduling, not a
+        // deadlock of the code: give up on this run (the thread is abandoned) and let the caller retry with
+        // coarser preemption.
+        if done_rx.recv_timeout(std::time::Duration::from_secs(STUCK_AFTER_SECS)).is_err() {
+            log::set_max_level(log::LevelFilter::Off);
+            std::mem::forget(h);
+            return SimOutcome {
+                value: None,
+                abort_msg: Some("STUCK-IN-SIM: no progress; a task was probably preempted while holding a std lock".into()),
+                schedule: ScheduleRec::default(),
+                stats: RunStats::default(),
+                pool: Default::default(),
+            };
+        }
         let (abort_msg, tl_stats, pool) = match h.join() {
             Ok(x) => x,
             Err(p) => (Some(format!("sim thread died: {}", panic_text(p))), RunStats::default(), Default::default()),
@@ -453,6 +555,8 @@ mod simexec {
         stats.sched_points_emit = tl_stats.sched_points_emit;
         stats.sched_points_other = tl_stats.sched_points_other;
         stats.sched_points_instr_loc = tl_stats.sched_points_instr_loc;
+    stats.sched_points_edge = tl_stats.sched_points_edge;
+    stats.edges_seen = tl_stats.edges_seen;
         stats.log_records = tl_stats.log_records;
         let value = slot.lock().unwrap().take();
         SimOutcome { value, abort_msg, schedule: rec.rec, stats, pool }
@@ -461,7 +565,7 @@ mod simexec {
     /// shuttle installs its own (chatty) panic hook once, at the first execution;
     /// trigger that now and then put the silent hook back.
     pub fn warm_up() {
-        let knobs = SimKnobs { threads: 2, steal_p: 65536, log_thin: 1, strategy: Strategy::Random, sched_seed: 0 };
+        let knobs = SimKnobs { threads: 2, steal_p: 65536, log_thin: 1, strategy: Strategy::Random, sched_seed: 0, edge_thin: 0 };
         let o = run_sim(&knobs, None, Some(0), || {
             let (a, b) = rayon_core::join(|| 1, || 2);
             a + b
